@@ -217,6 +217,18 @@ def run(ctx):
                        detail="interval analysis gives %r" % (v,), analysis="IVL (loop peeling, callee summaries)")
     ctx.floor("C01.CARRY", n_carry, 12, "carry sinks")
 
+    # ---------------------------------------------------------------- C01.MONTHCARRY
+    from ..rules_common import check_month_carry, region_function
+    from ..ivl import Val as _V
+    mb = [st for st in ast.walk(it.node) if isinstance(st, ast.If) and src(st.test).replace(" ", "") == "freq==MONTHLY"]
+    if len(mb) != 1:
+        raise AnalysisError("C01.MONTHCARRY", it.qualname, "MONTHLY advance branch not found")
+    reg = region_function(prog, it, mb[0].body, ["self", "ii", "year", "month", "interval", "total"])
+    check_month_carry(ctx, "C01.MONTHCARRY", it, reg, lambda c: src(c.func) == "ii.rebuild" and len(c.args) == 2,
+                      lambda m, k: {"month": _V(m, m), "interval": _V(k, k), "year": _V(0, 0, "Y")}, range(1, 13), range(1, 37),
+                      "the MONTHLY advance moves the period by exactly `interval` months: month = ((m-1+k) mod 12)+1 and the year carries "
+                      "floor((m-1+k)/12), for every start month and every interval 1..36 (each residue with one and several years of carry)")
+
     # ---------------------------------------------------------------- C01.LEN
     check_len_published(ctx, "C01.LEN")
 
